@@ -8,6 +8,13 @@ TRUSTED_BASE = [
 ]
 
 TABLE = {
+    "C10": {
+        "obligations": ["C10_metadata", "C10_produce", "C10_offsets", "C10_list_offsets", "C10_coordinator", "C10_offset_commit",
+                        "C10_offset_fetch", "C10_merge_ok", "C10_group_offsets_none", "C10_group_offsets_some", "C10_confirms"],
+        "what": "Theorems: for each response type (metadata, produce, offsets v0, list offsets v1, group coordinator, offset commit, offset fetch) the model's FromByte decoder applied to the specification's encoding of arbitrary well-formed content (any counts incl. zero, any in-range field values, any valid UTF-8 names, null metadata string) returns exactly that content and consumes the whole payload; merging a healthy per-broker response topic extends exactly that topic's entry by exactly its partitions and touches no other topic. (Fetch responses: C02.) Correspondence + judge: the Lean broker is the independent encoder; returned values of topics(), fetch_offsets, list_offsets, fetch_group_offsets are compared with the cluster's ground truth over unusual node ids/ports/UTF-8 hosts, extreme offsets, several brokers and response orders.",
+        "rule": "scenario = wild cluster (node ids 0..2^31-1 and negative, ports 0..2^31-1, UTF-8 host/topic names, 1-3 brokers, leaderless partitions, offsets up to 2^63-1, committed offsets) with response order req/rev/rot + 2-8 calls of fetch_offsets/list_offsets/fetch_group_offsets/fetch_group_topic_offset/produce/topics; non-trivial = a request reached a broker; distinct = distinct (operation, result) sequences",
+        "assumptions": ["well-formedness of the broker's response: field values within their wire types, names valid UTF-8 of at most 32767 bytes, topic names distinct within one response"],
+    },
     "C09": {
         "obligations": ["C09_metadata", "C09_metadata_long_topic", "C09_unencodable_client_id", "C09_offsets", "C09_list_offsets",
                         "C09_group_coordinator", "C09_offset_fetch", "C09_offset_commit", "C09_fetch", "C09_produce",
